@@ -413,7 +413,10 @@ fn main() {
     // from words of up to 3 symbols and chains of 2 from the 4-symbol words (cost)
     let quick = run.quick();
     let chain_bound = move |symbols: usize| if quick || symbols > 3 { 2 } else { 3 };
-    let words = strings(&ALPHA, max_len);
+    let mut words = strings(&ALPHA, max_len);
+    // second family: pure-ASCII words in which a character is nevertheless two code points (CR LF is one
+    // grapheme cluster); the context tables know nothing about it, the always-matching providers do
+    words.extend(strings(&["a", "\r\n"], 3).into_iter().filter(|w| w.contains('\r')));
     // start word -> its chain bound
     let initial: HashMap<&str, usize> = words.iter().map(|w| (w.as_str(), chain_bound(refs::chars(w, true).len()))).collect();
     let all = units(&words);
@@ -442,6 +445,7 @@ fn main() {
         }
     }
     run.bounds.insert("alphabet".into(), json!(ALPHA));
+    run.bounds.insert("second_alphabet".into(), json!({"symbols": ["a", "\r\n"], "max_symbols": 3, "rule": "words with at least one CR LF"}));
     run.bounds.insert("max_symbols_per_word".into(), json!(max_len));
     run.bounds.insert("words".into(), json!(words.len()));
     run.bounds.insert("use_graphemes".into(), json!([false, true]));
